@@ -352,7 +352,7 @@ def id_templates(ctx, rule: str = "C08.id-template") -> None:
                 n_alpha += 1
                 ctx.rep.check(sub.value == ALPHABET, rule, f"{m.name}/alphabet@{n_alpha}", "row alphabet is A..Z in order",
                               f"row alphabet literal `{sub.value}` is not the 26 letters A..Z in order", where=f"{m.relpath}:{sub.lineno}")
-    ctx.rep.floor(rule, "row alphabet literals", n_alpha, 3)
+    ctx.rep.floor(rule, "row alphabet literals", n_alpha, 1)
 
 
 def grid_construction(ctx, rule: str = "C08.id-template") -> None:
@@ -375,22 +375,30 @@ def grid_construction(ctx, rule: str = "C08.id-template") -> None:
         elif name == "row_ids":
             found[name] = True
             inner = v.args[0] if isinstance(v, ast.Call) and call_fname(v) in ("list", "tuple") and v.args else v
-            ok = isinstance(inner, ast.Subscript) and isinstance(inner.value, ast.Constant) and inner.value.value == ALPHABET and isinstance(inner.slice, ast.Slice) and inner.slice.lower is None and inner.slice.step is None
+            inner = fv.def_expr(inner, node.id)[0] if isinstance(inner, ast.Name) else inner
+            alpha = fv.res.resolve(inner.value, node.id) if isinstance(inner, ast.Subscript) else None
+            ok = isinstance(inner, ast.Subscript) and isinstance(alpha, ast.Constant) and alpha.value == ALPHABET and isinstance(inner.slice, ast.Slice) and inner.slice.lower is None and inner.slice.step is None
             bound_ok = False
-            if ok:
-                up = inner.slice.upper
-                # rows for plates, virtual_rows for troughs
-                if isinstance(up, ast.IfExp):
-                    names = {getattr(up.body, "id", None), getattr(up.orelse, "id", None)}
-                    bound_ok = names == {"rows", "virtual_rows"}
-                    tr = up.test
-                    neg = isinstance(tr, ast.UnaryOp) and isinstance(tr.op, ast.Not)
-                    core = tr.operand if neg else tr
-                    if is_name(core, "virtual_rows") or (isinstance(core, ast.Compare) and is_name(core.left, "virtual_rows")):
-                        when_virtual = up.orelse if neg or (isinstance(core, ast.Compare) and isinstance(core.ops[0], ast.Is)) else up.body
-                        bound_ok = bound_ok and is_name(when_virtual, "virtual_rows")
+            if ok and inner.slice.upper is not None:
+                # rows for plates, virtual_rows for troughs: every alternative of the bound, with the condition it is chosen under
+                alts = fv.alternatives(inner.slice.upper, node.id)
+                seen_b = set()
+                bound_ok = True
+                for conds, val in alts:
+                    virt = None  # is `virtual_rows` given on this alternative?
+                    for r, pol in conds:
+                        if is_name(r, "virtual_rows"):
+                            virt = pol
+                        elif isinstance(r, ast.Compare) and len(r.ops) == 1 and is_name(r.left, "virtual_rows") and isinstance(r.ops[0], ast.Is) \
+                                and isinstance(r.comparators[0], ast.Constant) and r.comparators[0].value is None:
+                            virt = not pol
+                    if is_name(val, "virtual_rows") and virt is True:
+                        seen_b.add("virtual_rows")
+                    elif is_name(val, "rows") and virt is False:
+                        seen_b.add("rows")
                     else:
                         bound_ok = False
+                bound_ok = bound_ok and seen_b == {"rows", "virtual_rows"}
             ctx.rep.check(ok and bound_ok, rule, f"{f.qualname}/row_ids", "row ids = first `rows` (plates) / `virtual_rows` (troughs) letters",
                           f"row ids are `{show(v)[:80]}`; expected the alphabet prefix of length rows (plate) / virtual_rows (trough)", where=f.where(node.ast))
             # more rows than letters must be rejected before (literal-slice rule; owned by C20, referenced here)
@@ -415,23 +423,72 @@ def grid_construction(ctx, rule: str = "C08.id-template") -> None:
             continue
         ctx.rep.touch(g)
         gv = ctx.fv(g)
-        rets = [gv.def_expr(n.ast.value, n.id)[0] for n in gv.return_nodes()]
-        ok = False
-        if len(rets) == 1:
-            v = rets[0]
-            if name == "make_well_array":
-                arr = v.args[0] if isinstance(v, ast.Call) and call_fname(v) == "array" and v.args else v
-                if isinstance(arr, ast.ListComp) and isinstance(arr.elt, ast.ListComp):
-                    ok = _alpha_prefix(arr.generators[0].iter, g.params[0]) and _one_based(arr.elt.generators[0].iter, g.params[1])
-            else:
-                if isinstance(v, ast.DictComp) and len(v.generators) == 2 and isinstance(v.value, ast.Tuple):
-                    g0, g1 = v.generators
-                    e0 = g0.iter.args[0] if isinstance(g0.iter, ast.Call) and call_fname(g0.iter) == "enumerate" and g0.iter.args else None
-                    e1 = g1.iter.args[0] if isinstance(g1.iter, ast.Call) and call_fname(g1.iter) == "enumerate" and g1.iter.args else None
-                    ok = e0 is not None and e1 is not None and _alpha_prefix(e0, g.params[0]) and _one_based(e1, g.params[1]) \
-                        and [getattr(x, "id", None) for x in v.value.elts] == [g0.target.elts[0].id, g1.target.elts[0].id]
+        shape = _grid_shape(gv, name)
+        if shape is None:
+            ctx.rep.inconclusive(rule, f"{g.qualname}/grid", f"cannot extract (row iteration, column iteration, ID template, index) from {name}", where=g.where())
+            continue
+        outer, inner, idx_ok, at = shape
+        outer_r = gv.res.resolve(outer.value, at) if isinstance(outer, ast.Subscript) else outer
+        alpha_ok = isinstance(outer, ast.Subscript) and isinstance(outer_r, ast.Constant) and outer_r.value == ALPHABET and isinstance(outer.slice, ast.Slice) \
+            and outer.slice.lower is None and outer.slice.step is None and is_name(outer.slice.upper, g.params[0])
+        ok = alpha_ok and _one_based(inner, g.params[1]) and idx_ok
         ctx.rep.check(ok, rule, f"{g.qualname}/grid", "rows = alphabet[:R] (outer), columns = 1..C (inner), index (r, c)",
-                      f"{name} does not enumerate rows alphabet[:R] x columns 1..C with index (r, c)", where=g.where())
+                      f"{name} does not enumerate rows alphabet[:R] x columns 1..C with index (r, c) (rows over `{show(outer)[:40]}`, columns over `{show(inner)[:30]}`)", where=g.where())
+
+
+def _unenum(it: ast.AST):
+    """enumerate(X) -> (X, True);  X -> (X, False)"""
+    if isinstance(it, ast.Call) and call_fname(it) == "enumerate" and it.args and len(it.args) == 1 and not it.keywords:
+        return it.args[0], True
+    return it, False
+
+
+def _grid_shape(gv, name: str):
+    """(row iterable, column iterable, index-tuple-is-(r, c), node) of the nested comprehension / nested loop that builds the grid."""
+    rets = gv.return_nodes()
+    if len(rets) != 1:
+        return None
+    rn = rets[0]
+    v, at = gv.def_expr(rn.ast.value, rn.id)
+    if name == "make_well_array":
+        arr = v.args[0] if isinstance(v, ast.Call) and call_fname(v) == "array" and v.args else v
+        arr, at = gv.def_expr(arr, at) if isinstance(arr, ast.Name) else (arr, at)
+        if isinstance(arr, ast.ListComp) and isinstance(arr.elt, ast.ListComp) and len(arr.generators) == 1 and len(arr.elt.generators) == 1:
+            return arr.generators[0].iter, arr.elt.generators[0].iter, True, at
+        # rows = []; for row in OUT: rows.append([... for column in IN])
+        lname = None
+        root = v.args[0] if isinstance(v, ast.Call) and call_fname(v) == "array" and v.args else v
+        if isinstance(root, ast.Name):
+            lname = root.id
+        apps = [cs for cs in gv.calls() if isinstance(cs.call.func, ast.Attribute) and cs.call.func.attr == "append" and is_name(cs.call.func.value, lname)]
+        if lname and len(apps) == 1 and len(apps[0].call.args) == 1:
+            loops = [h for h in gv.cfg.enclosing_loops(apps[0].node) if gv.cfg.nodes[h].kind == "for"]
+            row = gv.def_expr(apps[0].call.args[0], apps[0].node)[0]
+            if len(loops) == 1 and isinstance(row, ast.ListComp) and len(row.generators) == 1 and not gv.controlling(apps[0].node, within=gv.cfg.loop_body[loops[0]]):
+                return gv.cfg.nodes[loops[0]].ast.iter, row.generators[0].iter, True, loops[0]
+        return None
+    # make_well_index_dict
+    if isinstance(v, ast.DictComp) and len(v.generators) == 2 and isinstance(v.value, ast.Tuple) and len(v.value.elts) == 2:
+        g0, g1 = v.generators
+        (e0, en0), (e1, en1) = _unenum(g0.iter), _unenum(g1.iter)
+        if en0 and en1 and isinstance(g0.target, ast.Tuple) and isinstance(g1.target, ast.Tuple):
+            idx_ok = [getattr(x, "id", None) for x in v.value.elts] == [g0.target.elts[0].id, g1.target.elts[0].id]
+            return e0, e1, idx_ok, at
+        return None
+    if isinstance(v, ast.Name) or isinstance(rn.ast.value, ast.Name):
+        dname = rn.ast.value.id if isinstance(rn.ast.value, ast.Name) else None
+        stores = [n for n in gv.cfg.nodes if n.kind == "stmt" and isinstance(n.ast, ast.Assign) and isinstance(n.ast.targets[0], ast.Subscript) and is_name(n.ast.targets[0].value, dname)]
+        if dname and len(stores) == 1:
+            st = stores[0]
+            loops = [h for h in gv.cfg.enclosing_loops(st.id) if gv.cfg.nodes[h].kind == "for"]
+            if len(loops) == 2 and not gv.controlling(st.id, within=gv.cfg.loop_body[loops[0]]):
+                l0, l1 = gv.cfg.nodes[loops[0]].ast, gv.cfg.nodes[loops[1]].ast
+                (e0, en0), (e1, en1) = _unenum(l0.iter), _unenum(l1.iter)
+                val = gv.def_expr(st.ast.value, st.id)[0]
+                if en0 and en1 and isinstance(l0.target, ast.Tuple) and isinstance(l1.target, ast.Tuple) and isinstance(val, ast.Tuple) and len(val.elts) == 2:
+                    idx_ok = [getattr(x, "id", None) for x in val.elts] == [l0.target.elts[0].id, l1.target.elts[0].id]
+                    return e0, e1, idx_ok, loops[0]
+    return None
 
 
 def _alpha_prefix(it: ast.AST, rname: str) -> bool:
